@@ -58,6 +58,15 @@ theorem C11_primary_unchanged (cfg : Cfg) (st : St) (now : Nat) (sp : SendParams
   simp only [Ctr.wire, primaryFieldsEq, hp]
   simp
 
+/-- **Every bit of the bundle processing flags is preserved**, named in `PrimaryBlock.Flag` or
+    not (reserved / unassigned bits included): the flags field is an arbitrary natural number in
+    the model and leaves as received. -/
+theorem C11_flags_bits_preserved (cfg : Cfg) (st : St) (now : Nat) (sp : SendParams) (c0 : Ctr)
+    (b : Bundle) (h : fwdOut cfg st now sp c0 = some b) :
+    ∀ k, b.primary.flags.testBit k = c0.primary.flags.testBit k := by
+  intro k
+  rw [(C11_primary_unchanged cfg st now sp c0 b h).2.1]
+
 /-- witnesses shared with the harness (harness/props/c11.py `w_d11`, `w_life0`, …) -/
 def wCfg : Cfg := { nodeId := .dtn [47, 47, 110, 111, 100, 101, 47], rxRoutes := [.forward] }
 def wSp : SendParams := { txBits := [true] }
@@ -76,6 +85,9 @@ def wNullRpt : Ctr :=
 example : ∃ b, fwdOut wCfg {} 9000 wSp wD11 = some b ∧ b.primary.ts = ⟨0, 7⟩
     ∧ b.blocks.map (·.typeCode) = [6, 1] := ⟨_, rfl, by decide, by decide⟩
 example : ∃ b, fwdOut wCfg {} 9000 wSp wLife0 = some b ∧ b.primary.lifetime = 0 := ⟨_, rfl, by decide⟩
+-- a reserved flag bit (0x200000) next to NO_FRAGMENT, primary CRC type 0 (harness `w_resflags`)
+example : ∃ b, fwdOut wCfg {} 9000 wSp { primary := { wPri 5000 0 60000 with flags := 0x200004 }, blocks := [wPay] } = some b
+    ∧ b.primary.flags = 0x200004 := ⟨_, rfl, by decide⟩
 example : ∃ b, fwdOut wCfg {} 9000 wSp wNullRpt = some b ∧ b.primary.rpt = .dtnNone := ⟨_, rfl, by decide⟩
 
 /-! ### blocks that are neither previous-node nor age blocks -/
@@ -230,6 +242,15 @@ theorem C11_age_at_most_one (cfg : Cfg) (st : St) (now : Nat) (sp : SendParams) 
     obtain ⟨_, m, rfl⟩ := hall x hx (by rw [← h1]; exact ht)
     rw [h5]
     rfl
+
+/-- **A creation time ahead of the node clock gives age 0**, never a positive age. -/
+theorem C11_age_zero_for_future_creation (cfg : Cfg) (st : St) (now : Nat) (sp : SendParams) (c0 : Ctr)
+    (b : Bundle) (hnd : c0.nums.Nodup) (h : fwdOut cfg st now sp c0 = some b)
+    (hfut : now ≤ c0.primary.ts.time) :
+    ∀ y ∈ b.blocks, y.typeCode = typeAge → y.btsd = some (encBundleAge 0) := by
+  intro y hy ht
+  have := (C11_age_at_most_one cfg st now sp c0 b hnd h).2 y hy ht
+  rwa [Nat.sub_eq_zero_of_le hfut] at this
 
 def wDupAge : Ctr :=
   { primary := wPri 5000 0 60000,
